@@ -781,4 +781,60 @@ example : (match (step exViewWorld (.slice 0 (some (-1)) none)).2 with
     | .ok (.fields l) => some (l.map Prod.snd)
     | _ => none) = some [[1, 2, 3, 4, 5, 6]] := by decide +kernel
 
+/-! ### `view_field(fid).items()` in the world -/
+
+section viewItems
+variable {K : Type} [Add K] [Sub K] [Mul K] [Neg K] [NatCast K] [LT K] [DecidableLT K] [LE K] [DecidableLE K]
+
+/-- one item of `StorageView.items()`: `(t_k, storage[k][field_index])` on a storage whose frames are values -/
+def viewItem (sv : Store K (List K)) (fidx : Int) (p : K × Nat) : Except Err (K × FieldInfo × List K) :=
+  match viewGet sv fidx (p.2 : Int) with
+  | .error e => .error e
+  | .ok (fi, vals, j, m) => .ok (p.1, memberInfo fi m none, sliceFrame fi j vals)
+
+/-- `list(storage.view_field(fid).items())` in the world (the one reading operation without a world-level
+statement so far): the returned list is, for every stored time in order, the time and the member's slice of the
+CURRENT content of that frame - `viewGet` on the storage as a reader sees it -; the first failing item decides
+the error; the world is unchanged -/
+theorem view_items_world (w : World K) (sid : Nat) (fid : FieldId) (sv : Store K (List K))
+    (hv : w.view sid = some sv) :
+    (step w (.viewItems sid fid)).2 =
+      (match viewCreate sv fid with
+       | .error e => .error e
+       | .ok fidx =>
+         match sv.times.zipIdx.mapM (viewItem sv fidx) with
+         | .error e => .error e
+         | .ok l => .ok (.items l)) ∧
+    (step w (.viewItems sid fid)).1 = w := by
+  obtain ⟨s, hs, rfl⟩ := view_some w sid sv hv
+  simp only [step, hs, mapFrames_viewCreate]
+  cases viewCreate s fid with
+  | error e => exact ⟨rfl, rfl⟩
+  | ok fidx =>
+    simp only
+    have ht : (s.mapFrames w.deref).times = s.times := rfl
+    rw [ht]
+    split
+    · rename_i e h
+      have h2 : List.mapM (viewItem (s.mapFrames w.deref) fidx) s.times.zipIdx = .error e := by
+        refine Eq.trans (congrArg (fun f => List.mapM f s.times.zipIdx) (funext fun p => ?_)) h
+        unfold viewItem
+        rw [mapFrames_viewGet]
+        cases viewGet s fidx (p.2 : Int) <;> rfl
+      rw [h2]; exact ⟨rfl, rfl⟩
+    · rename_i l h
+      have h2 : List.mapM (viewItem (s.mapFrames w.deref) fidx) s.times.zipIdx = .ok l := by
+        refine Eq.trans (congrArg (fun f => List.mapM f s.times.zipIdx) (funext fun p => ?_)) h
+        unfold viewItem
+        rw [mapFrames_viewGet]
+        cases viewGet s fidx (p.2 : Int) <;> rfl
+      rw [h2]; exact ⟨rfl, rfl⟩
+
+end viewItems
+
+/-- `view_items_world` on the example world: both items' worth of the vector member (here one frame) -/
+example : (match (step exViewWorld (.viewItems 0 (.name "v"))).2 with
+    | .ok (.items l) => some (l.map (fun r => (r.1, r.2.2)))
+    | _ => none) = some [(0, [3, 4, 5, 6])] := by decide +kernel
+
 end PdeVerif.Storage
